@@ -291,6 +291,21 @@ def run(ctx, rep) -> None:
                   sir.file, fall.lineno, disc="zombie-evidence")
 
     _r7_synthetic_children(ctx, rep, T)
+    # which workflows are swept: only those in progress. A workflow that is explicitly waiting (BUFFERED for a concurrency slot,
+    # PAUSED, SUSPENDED) is not crashed - re-queuing its NOT_STARTED stages would start it out of turn.
+    from ..status_tables import _member_set
+    rep.rule("C10.R8", "the sweep selects workflows in {RUNNING, NOT_STARTED} only")
+    gw = prog.func(REC, "WorkflowRecovery._get_workflows_for_recovery")
+    crit = [c for c in ast.walk(gw.node) if isinstance(c, ast.Call) and norm(c.func).endswith("WorkflowCriteria")]
+    sel = None
+    for c in crit:
+        for k in c.keywords:
+            if k.arg == "statuses":
+                sel = _member_set(k.value)
+    ok = sel is not None and sel <= frozenset({"RUNNING", "NOT_STARTED"}) and "RUNNING" in sel
+    rep.check(ok, "C10.R8", "swept workflow statuses", f"statuses = {sorted(sel) if sel is not None else 'not a literal set'}" + ("" if ok else
+              ": a workflow in an explicit waiting status (BUFFERED / PAUSED / SUSPENDED) or a finished one is handed to _recover_workflow, which re-queues StartStage for its NOT_STARTED initial stages - it starts although it is waiting for a slot / a resume"),
+              gw.file, crit[0].lineno if crit else gw.node.lineno, disc="swept-statuses")
 
     # ---- R6 -------------------------------------------------------------------------------------
     from ..statuspred import status_set
